@@ -40,6 +40,7 @@ type SiteAssert struct {
 	// call p: e"): used to say that a kind of call, if the code ever makes it, happens only
 	// under e
 	Optional bool
+	IntVal   bool // remember: the value is an integer (default: boolean)
 }
 
 type LetDef struct {
@@ -564,11 +565,17 @@ func (c *Contracts) parseFile(path, pkgPath string) error {
 				pat = pat[:h]
 			}
 			name := strings.TrimSpace(txt[colon+2 : eq])
+			// "name := expr" remembers an integer value, "name = expr" a boolean
+			intVal := false
+			if strings.HasSuffix(name, ":") {
+				intVal = true
+				name = strings.TrimSpace(strings.TrimSuffix(name, ":"))
+			}
 			cl, err := mk(strings.TrimSpace(txt[eq+1:]), r.line)
 			if err != nil {
 				return err
 			}
-			cur.Asserts = append(cur.Asserts, &SiteAssert{When: when, Pattern: pat, Ordinal: ord, Clause: cl, LetName: name})
+			cur.Asserts = append(cur.Asserts, &SiteAssert{When: when, Pattern: pat, Ordinal: ord, Clause: cl, LetName: name, IntVal: intVal})
 		case "assert", "assume", "after":
 			// assert call <pattern>[#k]: expr     after call <pattern>[#k]: expr
 			txt := r.text
